@@ -17,7 +17,9 @@ RULE = ("(a) call-site cross-check: sampler runs (clustering on/off, both kernel
         "clustering fits with every numpy.random attribute wrapped; each observed (file, line) must be in the static RNG "
         "effect table G3. (b) seeded determinism predicted by the model (program = seedArg :: draws): the same random_state "
         "twice gives bit-identical history / weights / evidence, two different random_states differ — over the configuration "
-        "lattice. (c) no-reset predicted by the model (program without seedLit is injective in the pre-state): for each "
+        "lattice; plus seed pairs across the whole valid range [0, 2^32) (differing by 2^31-1, 2^31, 2^32-1, 2^16 ..., both "
+        "ends): the first batch of each is exactly RandomState(seed)'s stream and the two differ; invalid seed values (negative, "
+        ">= 2^32, float) are refused or at least do not reproduce a valid seed's run. (c) no-reset predicted by the model (program without seedLit is injective in the pre-state): for each "
         "library operation (GMM fit, HGMM fit, from_particles, one sampler iteration with clustering on/off, "
         "systematic_resample) and two different ambient seeds the first draws afterwards differ. "
         "Non-trivial = configuration with clustering on or a distinct operation/seed pair. "
@@ -1145,6 +1147,58 @@ def suite_pool(tier):
     return c
 
 
+SEED_PAIRS = [(5, 5 + 2 ** 31 - 1), (4000000000, 4000000000 - (2 ** 31 - 1)), (2 ** 31 - 1, 0), (0, 2 ** 31), (1, 2 ** 32 - 1),
+              (2 ** 32 - 1, 2 ** 32 - 2), (2 ** 31, 2 ** 31 - 1), (7, 7 + 2 ** 16), (3, 3 + 2 ** 24), (123456789, 123456789 + 2 ** 31),
+              (2 ** 32 - 1, 2 ** 31 - 1), (2 ** 32 - 2, 0), (65535, 65536), (2 ** 30, 2 ** 30 + 2 ** 31 - 1)]
+INVALID_SEEDS = [-1, -5, 2 ** 32, 2 ** 32 + 5, 2 ** 33 + 1, 5.0, 1.5]
+
+
+def _first_batch(seed, clustering=False):
+    """the prior batch of the first iteration of a fresh seeded run (one warm-up iteration; cheap)"""
+    np.random.seed(987654)
+    s = _sampler(clustering, "rwm", "syst", random_state=seed)
+    with _quiet(), warnings.catch_warnings():
+        warnings.simplefilter("ignore")
+        s._core._initialize_fresh()
+        s.sample()
+    return np.array(s.state.get_history("u")[0], copy=True)
+
+
+def seedrange_violations(pairs=None, invalid=None, counter=None):
+    """property oracle on the REAL code over the WHOLE range of valid seeds [0, 2^32): (A) the first batch of a run seeded with
+    `a` is the stream of exactly that seed (np.random.RandomState(a).random_sample(N*D)); (B) two different valid seeds whose
+    MT19937 streams start differently give different runs; (C) a value np.random.seed does not accept (negative, >= 2^32,
+    float) is either refused or at least does not reproduce the run of a valid seed it could have been folded onto."""
+    bad = []
+    for a, b in (SEED_PAIRS if pairs is None else pairs):
+        if counter is not None:
+            counter("pair")
+        ua, ub = _first_batch(a), _first_batch(b)
+        for sd, u in ((a, ua), (b, ub)):
+            want = np.random.RandomState(sd).random_sample(u.size).reshape(u.shape)
+            if not np.array_equal(u, want):
+                bad.append({"what": f"the first batch of a run with random_state={sd} is not the stream of seed {sd} "
+                                    f"(u[0,0]={u[0, 0]!r}, RandomState({sd}) gives {want[0, 0]!r})", "seedrange": [a, b]})
+                break
+        else:
+            if np.random.RandomState(a).random_sample() != np.random.RandomState(b).random_sample() and np.array_equal(ua, ub):
+                bad.append({"what": f"random_state={a} and random_state={b} (both valid seeds) gave bit-identical first batches", "seedrange": [a, b]})
+    for v in (INVALID_SEEDS if invalid is None else invalid):
+        if counter is not None:
+            counter("invalid")
+        try:
+            u = _first_batch(v)
+        except Exception:
+            continue              # refused: fine
+        cands = {int(v) % (2 ** 31 - 1), int(v) % 2 ** 32, int(v) % 2 ** 31, abs(int(v)) % 2 ** 32, int(v) & 0xFFFFFFFF}
+        for cnd in sorted(cands):
+            if np.array_equal(u, np.random.RandomState(cnd).random_sample(u.size).reshape(u.shape)):
+                bad.append({"what": f"random_state={v!r} (not a valid seed) is accepted and reproduces the run of the valid seed {cnd}",
+                            "seedrange_invalid": repr(v)})
+                break
+    return bad
+
+
 def correspond(tier):
     out = [suite_sites(tier)]
     c = Corr("seeded-run-deterministic", "exact (bit-identical fingerprints)")
@@ -1164,6 +1218,13 @@ def correspond(tier):
             c.count("hfirst_holds")
         for b in repro_violations([cfg]):
             c.disagree(input=cfg, impl=b["what"], model="exec g a (seedArg :: p) is independent of the ambient state (C09_seeded_run_deterministic)")
+    tags = []
+    for bv in seedrange_violations(counter=tags.append):
+        c.disagree(input=bv.get("seedrange", bv.get("seedrange_invalid")), impl=bv["what"],
+                   model="initFresh (some a) = seed a: the run is the stream of exactly the given seed (C09_run_fresh_log_is_stream)")
+    for i, t in enumerate(tags):
+        c.case(("seedrange", t, i), True)
+        c.count("seed_pairs_across_the_32bit_range" if t == "pair" else "invalid_seed_values")
     c.sample({"config": configs[0], "check": "same random_state twice -> identical fingerprint; different -> different"})
     out.append(c)
     c2 = Corr("no-global-reset", "exact (post-operation draws differ for different ambient seeds)")
@@ -1182,6 +1243,8 @@ def search(tier, hints):
     found = reset_violations()
     configs = [(cl, k, r, a, a + 1) for cl in (True, False) for k in ("tpcn", "rwm") for r in ("mult", "syst") for a in ((0,) if tier == "quick" else (0, 5, 9))]
     found += repro_violations(configs)
+    if len(found) < 5:
+        found += seedrange_violations()
     if len(found) < 5:
         found += repro_violations([(False, "rwm", "mult", 3, 4, "tiny"), (False, "tpcn", "syst", 0, 1, "tiny")])
     if len(found) < 5:
@@ -1207,6 +1270,10 @@ def replay(obj):
         return witnesses.ALL[f["replay"]["witness"]]()
     if "op" in f:
         b = reset_violations([f["op"]])
+    elif "seedrange" in f:
+        b = seedrange_violations(pairs=[tuple(f["seedrange"])], invalid=[])
+    elif "seedrange_invalid" in f:
+        b = seedrange_violations(pairs=[], invalid=[v for v in INVALID_SEEDS if repr(v) == f["seedrange_invalid"]])
     elif f.get("multirun"):
         cfg = f["config"]
         t = (cfg["clustering"], cfg["kernel"], cfg["resample"], f.get("like", "plain"), f["random_state"])
